@@ -6,7 +6,13 @@ EXTENDS Values, Json
 VARIABLES x, y
 CONSTANT Mode   \* "pairs": emit all pairs; "triples": check the triple laws only
 
-Nums == { IntV(-1), Num(-1, 0, 0), IntV(0), Num(1, 1, -1), IntV(1), IntV(2), Num(1, 3, -1) }
+\* numbers at the edges of the double grid: neighbours of 1 and of 2^53 (one and two steps apart),
+\* whole numbers beyond 2^63 (outside every machine integer), the largest and smallest magnitudes
+EdgeNums == { NumD(1, 0, -1), NumD(1, 0, 1), NumD(1, 0, 2), NumD(-1, 0, 1),
+              Num(1, 1, 53), NumD(1, 53, 1), NumD(1, 53, -1),
+              Num(1, 1, 63), Num(1, 3, 62), Num(1, 1, 64), Num(-1, 1, 63), Num(-1, 1, 64), Num(1, 1, 1000), Num(1, 3, 999),
+              Num(1, 1, -1074), Num(1, 1, -1073), Num(-1, 1, -1074) }
+Nums == { IntV(-1), Num(-1, 0, 0), IntV(0), Num(1, 1, -1), IntV(1), IntV(2), Num(1, 3, -1) } \cup EdgeNums
 Strs == { Str(<<>>), Str(<<97>>), Str(<<97, 98>>), Str(<<98>>), Str(<<233>>), Str(<<122>>),
           Str(<<65535>>), Str(<<119070>>), Str(<<97, 119070>>), Str(<<97, 65535>>) }
 Prims == Nums \cup Strs \cup { Null, Bool(TRUE), Bool(FALSE) }
